@@ -3,7 +3,7 @@
 (declare-const u16_1 (_ BitVec 16))
 (declare-const u8_2 (_ BitVec 8))
 (push 1)
-(define-fun t!1276 () Bool (= (bvor (bvshl ((_ zero_extend 8) ((_ extract 7 0) (bvlshr u16_1 #x0008))) #x0008) ((_ zero_extend 8) ((_ extract 7 0) u16_1))) u16_1))
-(define-fun t!1277 () Bool (not t!1276))
-(assert t!1277)
+(define-fun t!1290 () Bool (= (bvor (bvshl ((_ zero_extend 8) ((_ extract 7 0) (bvlshr u16_1 #x0008))) #x0008) ((_ zero_extend 8) ((_ extract 7 0) u16_1))) u16_1))
+(define-fun t!1291 () Bool (not t!1290))
+(assert t!1291)
 (check-sat)
